@@ -602,7 +602,7 @@ pub fn check_base(case: &FunCase, rep: &mut Report) {
 
 pub fn worker(ctx: &WorkerCtx) -> Report {
     let mut rep = Report::default();
-    let cfg = FunCfg { thorough: ctx.tier.thorough(), with_unsequenced: true };
+    let cfg = FunCfg { thorough: ctx.tier.thorough(), small_max: 0, with_unsequenced: true };
     {
         let mut handle = |case: FunCase| {
             // the small family is huge: mutate a slice of it, accept-check all of it
